@@ -20,18 +20,8 @@ instance (σ : St) (s : Nat) : Decidable (Started σ s) := by unfold Started; in
 /-- a pass is a run of loop actions only: no completion of any task is needed or used -/
 theorem pass_only_loop_actions (c : Cfg) (σ : St) (order : List Nat) :
     pass c σ order = run c σ (order.flatMap (visitActs c)) ∧
-      ∀ a ∈ order.flatMap (visitActs c), a.isLoop = true := by
-  constructor
-  · induction order generalizing σ with
-    | nil => rfl
-    | cons t rest ih =>
-      simp only [pass, List.foldl_cons, List.flatMap_cons]
-      rw [run_append, ← visitFull_eq_run]
-      exact ih _
-  · intro a ha
-    rw [List.mem_flatMap] at ha
-    obtain ⟨t, _, h⟩ := ha
-    exact visitActs_loop c t a h
+      ∀ a ∈ order.flatMap (visitActs c), a.isLoop = true :=
+  pass_only_loop_actions' c order σ
 
 /-- examining an eligible stage starts it -/
 theorem C04_visit_starts (c : Cfg) (σ : St) (s : Nat) (hidle : σ.pc = .idle)
